@@ -30,6 +30,9 @@ ASSUMPTIONS = ["all times are multiples of 0.25 (exact in binary floating point)
 VERSION = "8.3.0"
 DUR_SPELLINGS = [("{s} s", 1), ("{s} second", 1), ("{s} Seconds", 1), ("{ms} ms", 1000), ("{ms} milliseconds", 1000),
                  ("{s} SECONDS", 1)]
+LONG_TEMPORAL = "Property/Data-property/Data-value/Spatiotemporal-value/Temporal-value/"
+LONG_ORG = "Property/Organizational-property/"
+LONG_MARK = "Property/Data-property/Data-marker/Temporal-marker/"
 _dd = {}
 
 
@@ -71,14 +74,17 @@ def history(draw):
             act = draw(st.sampled_from(["onset", "onset", "close", "duration", "duration"]))
             delay = draw(st.sampled_from([0.25, 0.5, 1.0])) if draw(st.integers(0, 3)) == 0 else None
             te = t + (delay or 0.0)
-            dtxt = f"Delay/{num(delay)} s, " if delay else ""
+            # reserved tags in any accepted spelling: letter case, long form
+            delay_tag = draw(st.sampled_from(["Delay", "Delay", "delay", "DELAY", LONG_TEMPORAL + "Delay"]))
+            dtxt = f"{delay_tag}/{num(delay)} s, " if delay else ""
             if act == "duration":
                 pid += 1
                 dur = draw(st.sampled_from([0.25, 0.5, 1.0, 1.5, 3.0]))
                 sp, mult = draw(st.sampled_from(DUR_SPELLINGS))
                 dtext = sp.format(s=num(dur), ms=num(dur * mult))
                 label = f"Label/q{pid}z"
-                items.append(f"({dtxt}Duration/{dtext}, ({label}))")
+                dur_tag = draw(st.sampled_from(["Duration", "Duration", "duration", "DURATION", LONG_TEMPORAL + "Duration"]))
+                items.append(f"({dtxt}{dur_tag}/{dtext}, ({label}))")
                 procs.append({"id": pid, "start": te, "end_time": te + dur, "kind": "duration", "label": label})
                 continue
             name = draw(st.sampled_from(["A", "a", "B", "C/1", "c/1", "C/2", "D/Left", "d/left"]))
@@ -93,14 +99,18 @@ def history(draw):
                 if last is None or not last["open"]:
                     continue
                 used_keys_at[te].add(k)
-                items.append(f"({dtxt}Offset, Def/{name})")
+                off = draw(st.sampled_from(["Offset", "Offset", "offset", "OFFSET", LONG_MARK + "Offset"]))
+                dfn = draw(st.sampled_from(["Def", "Def", "def", "DEF", LONG_ORG + "Def"]))
+                items.append(f"({dtxt}{off}, {dfn}/{name})")
                 last["proc"]["end"] = te
                 open_by_key[k] = {"open": False, "changed": te, "proc": None}
             else:
                 used_keys_at[te].add(k)
                 pid += 1
                 label = f"Label/q{pid}z"
-                items.append(f"({dtxt}Def/{name}, Onset, ({label}))")
+                ons = draw(st.sampled_from(["Onset", "Onset", "onset", "ONSET", LONG_MARK + "Onset"]))
+                dfn = draw(st.sampled_from(["Def", "Def", "def", "DEF", LONG_ORG + "Def"]))
+                items.append(f"({dtxt}{dfn}/{name}, {ons}, ({label}))")
                 if last is not None and last["open"]:
                     last["proc"]["end"] = te          # a restart ends the running process
                     last["proc"]["restarted"] = True
@@ -126,7 +136,7 @@ def time_points(case):
     import re
     for r in case["rows"]:
         for it in r["items"]:
-            m = re.match(r"\(Delay/([0-9.]+) s, ", it)
+            m = re.match(r"\((?:[A-Za-z/-]*/)?delay/([0-9.]+) s, ", it, re.IGNORECASE)
             if m:
                 pts.add(r["onset"] + float(m.group(1)))
     return sorted(pts)
@@ -163,7 +173,7 @@ def oracle(case):
                 cls.add("beyond-last-row")
         if p.get("restarted"):
             cls.add("restart")
-    if "Delay/" in tsv:
+    if "delay/" in tsv.casefold():
         cls.add("delay")
     if len({r["onset"] for r in rows}) < len(rows):
         cls.add("equal-onset-rows")
